@@ -252,6 +252,10 @@ func alienChunk(r *rand.Rand, feat map[string]bool) []byte {
 		typ = []byte("MThd")[:4]
 		typ[3] = 'x'
 	}
+	if r.Intn(6) == 0 { // the chunk types are case sensitive: these are alien too
+		typ = []byte([]string{"MTRK", "mtrk", "Mtrk", "MTrK", "mTrk", "MTHD", "mthd", "MThD"}[r.Intn(8)])
+		feat["alien_type_other_case"] = true
+	}
 	n := []int{0, 1, 4, 7, 8, 9, 64, r.Intn(300)}[r.Intn(8)]
 	if r.Intn(60) == 0 { // a chunk length that needs more than 16 bits
 		n = 65536 + r.Intn(3000)
@@ -405,6 +409,48 @@ func genValidFile(r *rand.Rand, big bool, feat map[string]bool) []byte {
 	for hx.Chance(r, alienP) {
 		out = append(out, alienChunk(r, feat)...)
 		feat["alien_after_last_track"] = true
+	}
+	return out
+}
+
+// oddLayout rewrites a well-formed file into one with an unusual chunk layout (C09 asks nothing of the result but that it
+// is the same however the bytes arrive): a header chunk that declares more than its 6 bytes (the format allows later
+// versions to extend it), and track chunks that declare more bytes than their events up to end-of-track occupy.
+func oddLayout(r *rand.Rand, file []byte, feat map[string]bool) []byte {
+	type ck struct {
+		typ  string
+		body []byte
+	}
+	var cks []ck
+	for p := 0; p+8 <= len(file); {
+		n := int(file[p+4])<<24 | int(file[p+5])<<16 | int(file[p+6])<<8 | int(file[p+7])
+		if p+8+n > len(file) {
+			return file
+		}
+		cks = append(cks, ck{string(file[p : p+4]), file[p+8 : p+8+n]})
+		p += 8 + n
+	}
+	var out []byte
+	mode := r.Intn(3) // 0: long header, 1: padded tracks, 2: both
+	for i, c := range cks {
+		body := append([]byte{}, c.body...)
+		switch {
+		case i == 0 && c.typ == "MThd" && mode != 1:
+			k := []int{1, 2, 7, 8, 9, 20, 250}[r.Intn(7)]
+			body = append(body, payload(r, k, false)...)
+			feat["long_header_chunk"] = true
+		case c.typ == "MTrk" && mode != 0 && r.Intn(2) == 0:
+			k := []int{1, 2, 4, 7, 8, 9, 12, 30}[r.Intn(8)]
+			pad := payload(r, k, false)
+			if r.Intn(2) == 0 {
+				pad = make([]byte, k)
+			}
+			body = append(body, pad...)
+			feat["bytes_after_end_of_track"] = true
+		}
+		out = append(out, c.typ...)
+		out = append(out, be32(len(body))...)
+		out = append(out, body...)
 	}
 	return out
 }
